@@ -62,6 +62,8 @@ FAMILIES["ctl"] = dict(
         "t(X) :- q(X), findall(Y, r(Y), [X|_]).", "u(X) :- (X = a ; X = b).", "t(X) :- (q(X), r(X) ; u(X)).",
         "u(X) :- t(X).", "t(X).",
         # 20
+        "t(X) :- X \\= a, q(X).",
+        # 21
     ],
     queries=[
         "findall(X, t(X), L)", "t(X)", "findall(X, (q(X), \\+ t(X)), L)", "findall(X, (t(X) ; u(X)), L)",
@@ -71,8 +73,11 @@ FAMILIES["ctl"] = dict(
         "findall(X, (r(X), X \\= c, \\+ t(X)), L)", "u(X)", "findall(X, u(X), L)",
         # 10
     ],
-    sizes=dict(quick=dict(menu=11, maxlen=3, queries=7, menu4=6, queries4=4, len4=4),
-               thorough=dict(menu=20, maxlen=3, queries=10, menu4=11, queries4=7, len4=4)),
+    # (quick: clause 20 -- \\= on a non-ground argument -- takes the place of clause 7)
+    sizes=dict(quick=dict(menu=[0, 1, 2, 3, 4, 5, 6, 20, 8, 9, 10], maxlen=3, queries=7,
+                          menu4=[0, 1, 2, 3, 4, 20], queries4=4, len4=4),
+               thorough=dict(menu=21, maxlen=3, queries=10, menu4=[0, 1, 2, 3, 4, 5, 6, 7, 8, 9, 10, 20],
+                             queries4=7, len4=4)),
 )
 
 FAMILIES["rec"] = dict(
@@ -287,7 +292,36 @@ def from_problog(t, vm):
     return (f,) + tuple(from_problog(a, vm) for a in t.args)
 
 
-def run_impl(case, timeout=5):
+class cpu_watchdog(object):
+    """Like core.watchdog but on the CPU time consumed by this process (ITIMER_PROF): independent of the
+    load of the machine, so that a 3 ms case is never mistaken for a hang on a busy host."""
+
+    def __init__(self, seconds):
+        self.seconds = seconds
+
+    def _handler(self, signum, frame):
+        raise WatchdogTimeout()
+
+    def __enter__(self):
+        import signal
+
+        self.old = signal.signal(signal.SIGPROF, self._handler)
+        signal.setitimer(signal.ITIMER_PROF, self.seconds)
+        return self
+
+    def __exit__(self, *exc):
+        import signal
+
+        signal.setitimer(signal.ITIMER_PROF, 0)
+        signal.signal(signal.SIGPROF, self.old)
+        return False
+
+
+CPU_LIMIT = 2.0     # seconds of CPU per case (a typical case takes 2-5 ms)
+WALL_LIMIT = 120    # seconds of wall clock per case
+
+
+def run_impl(case, timeout=WALL_LIMIT, cpu=CPU_LIMIT):
     """-> ("ok", [answer argument tuples in reference representation]) | ("error", cls, msg) |
     ("crash", cls, site) | ("timeout",) | ("recursion",)"""
     from problog.program import PrologString
@@ -298,7 +332,7 @@ def run_impl(case, timeout=5):
 
     src = source_of(case)
     try:
-        with watchdog(timeout):
+        with watchdog(timeout), cpu_watchdog(cpu):
             eng = DefaultEngine()
             db = eng.prepare(PrologString(src))
             qs = eng.query(db, Term("query", None))
@@ -408,8 +442,6 @@ def judge(case):
         res["symptom"] = ref["reason"]
         return res
     out = run_impl(case)
-    if out[0] == "timeout":
-        out = run_impl(case, timeout=30)     # a loaded machine can stall a 3 ms case for seconds: retry once
     res["impl"] = out[0] if out[0] == "ok" else ":".join(out[:2])
     kind = ref["kind"]
     if kind == "seq":
@@ -898,9 +930,14 @@ def layers(name, tier):
     sz = fam["sizes"][tier]
     res = []
     for n in range(1, sz["maxlen"] + 1):
-        res.append(("L%d" % n, n, sz["menu"], sz["queries"]))
-    res.append(("R%d" % sz["len4"], sz["len4"], sz["menu4"], sz["queries4"]))
+        res.append(("L%d" % n, n, _indices(sz["menu"]), sz["queries"]))
+    res.append(("R%d" % sz["len4"], sz["len4"], _indices(sz["menu4"]), sz["queries4"]))
     return res
+
+
+def _indices(m):
+    """a menu is given as a prefix length or as an explicit list of clause indices"""
+    return list(range(m)) if isinstance(m, int) else list(m)
 
 
 def query_sigs(qtext):
@@ -935,7 +972,7 @@ class C13(Prop):
         "ProbLogError classes UnknownClause / IndirectCallCycleError / NegativeCycle / NonGround* on a judged "
         "program are counted as unjudged; crashes and timeouts are counted (C27), not reported here",
     ]
-    budget = {"quick": 240, "thorough": 1800}
+    budget = {"quick": 600, "thorough": 2400}
 
     # -- shards
     def shards(self, tier):
@@ -945,9 +982,9 @@ class C13(Prop):
                 if n == 1:
                     res.append([name, lid, []])
                 elif n == 2:
-                    res.extend([name, lid, [i]] for i in range(m))
+                    res.extend([name, lid, [i]] for i in m)
                 else:
-                    res.extend([name, lid, [i, j]] for i in range(m) for j in range(m))
+                    res.extend([name, lid, [i, j]] for i in m for j in m)
         # simplest first: by program length, then family
         res.sort(key=lambda s: (int(s[1][1:]), s[1][0] == "R"))
         return res
@@ -960,9 +997,9 @@ class C13(Prop):
         full = [l for l in layers(name, tier) if l[0][0] == "L"]
         base_sigs = set(parse_clause(c)[4] for c in base)
         qsigs = [query_sigs(q) for q in queries[:nq]]
-        if lid[0] == "R" and any(fl[1] == n and fl[2] >= m and fl[3] >= nq for fl in full):
+        if lid[0] == "R" and any(fl[1] == n and set(fl[2]) >= set(m) and fl[3] >= nq for fl in full):
             return  # already contained in a full layer
-        for rest in itertools.product(range(m), repeat=n - len(prefix)):
+        for rest in itertools.product(m, repeat=n - len(prefix)):
             idx = list(prefix) + list(rest)
             clauses = [menu[i] for i in idx]
             defined = set(base_sigs)
@@ -981,6 +1018,7 @@ class C13(Prop):
                 yield dict(program=program, query=queries[qi]), None
 
     def run_shard(self, shard, tier, acc):
+        slow = None     # program on which a findall query already exhausted the CPU limit
         for case, skip in self.cases_of(shard, tier):
             if acc.expired():
                 acc.cap("wall budget reached inside shard")
@@ -988,7 +1026,14 @@ class C13(Prop):
             if case is None:
                 acc.counters["programs_" + skip] += 1
                 continue
-            self.run_case(case, acc, shard[0])
+            if slow is not None and slow == case["program"] and case["query"].startswith("findall("):
+                acc.states += 1
+                acc.counters["unjudged:impl-timeout-same-program-not-run"] += 1
+                acc.outcomes["unjudged:impl-timeout"] += 1
+                continue
+            j = self.run_case(case, acc, shard[0])
+            if j["verdict"] == "unjudged" and j["symptom"] == "impl-timeout" and case["query"].startswith("findall("):
+                slow = case["program"]
 
     def run_case(self, case, acc, fam="-"):
         acc.states += 1
